@@ -41,3 +41,22 @@ Theorem C10_shipped_settings_measurable :
   forall (crlf tabs : bool) (tw ci : N), rs_measurable (rs_of_config crlf tabs tw ci) = true.
 Proof. exact rs_of_config_measurable. Qed.
 
+(* composed with the effect model of the wrapper: for ANY plan, a decided token ends at the column get_token_line_length gives for
+   the LAST decision taken for it *)
+From PasfmtVerif Require Import Proofs.MeasureApplyProofs.
+Theorem C10_decided_token_end_column :
+  forall (rs : rsettings) (plan : list (nat * decision)) (l : list ftoken) 
+    (i : nat) (tok : token) (f : fmt) (d : decision) (col : N),
+  nth_error l i = Some (tok, f) ->
+  last_decision plan i = Some d ->
+  rs_measurable rs = true ->
+  exists f' : fmt,
+    nth_error (zero_line_starts (apply_plan plan l)) i =
+    Some (tok, zero_start1 (apply_decision f' d)) /\
+    f_sp f' = f_sp f /\
+    (tok_measurable (tok, zero_start1 (apply_decision f' d)) = true ->
+     rendered_col rs false col (tok, zero_start1 (apply_decision f' d)) =
+     token_line_length rs col d tok (f_sp f)).
+Proof. exact decided_token_end_column. Qed.
+
+
